@@ -922,6 +922,13 @@ config_default_build_dir(struct config *cf, const char *name)
 	char *nl;
 	int fd = -1;
 
+	/*
+	 * The lock file is rooted in robsddir, which therefore must not depend
+	 * on builddir. Refuse to recurse.
+	 */
+	if (cf->interpolate.builddir)
+		return NULL;
+	cf->interpolate.builddir = 1;
 	path = interpolate_str("${robsddir}/.running",
 	    &(struct interpolate_arg){
 		.lookup		= config_interpolate_lookup,
@@ -930,6 +937,7 @@ config_default_build_dir(struct config *cf, const char *name)
 		.scratch	= cf->arena.scratch,
 		.path		= cf->path,
 	});
+	cf->interpolate.builddir = 0;
 	if (path == NULL)
 		return NULL;
 
